@@ -60,6 +60,14 @@ CHECKS = {
             'MatchError / TypeMatchError class, agreement of matches(), verify(), Match(default=) and an identity snapshot of the target.',
             'First-accepting-key / no back-tracking reading of dict patterns; TypeMatchError required only where the reference attributes the failure to a type rule; plain callables as dict KEYS are outside the alphabet.',
             '3/C09'),
+    'C08': ('model_checking',
+            'bounded exhaustive enumeration of mode-wrapper / chain / branch trees with a mode-reading probe at every leaf, compared with a lexical walk; exhaustive literal container shapes in Fill and 12 argument positions',
+            'Every tree of depth <= 3 over {Auto, Fill, Match, Group} x {Pipe, tuple, dict, list, Coalesce, Switch, And, Or} x {passing, failing probe} under four outer modes: '
+            'one evaluation logs the mode in force at every probe position and is compared with the lexical expectation (pass/fail outcome too); a fixed menu of ordinary '
+            'mode-sensitive specs after/beside wrappers; every literal shape of depth <= 2 (thorough: 3) over dict/list/tuple/set/frozenset with six leaf kinds plus seven cyclic '
+            'shapes in Fill and in 12 argument positions (type, shape, leaves, sharing/cycles by graph isomorphism, no aliasing with the spec).',
+            'Plain containers are generated only where the lexical mode defines their structure; the probe relies on the glomit protocol and the public MODE key.',
+            '3/C08'),
 }
 
 NOT_YET = {}
